@@ -250,7 +250,9 @@ class C01(Prop):
     table_groups = ['Wire']
     theorems = ['BtcVerif.C01.' + t for t in (
         'ser_eq_spec', 'ser_stripped_eq_spec', 'serHeader_eq_spec', 'serBlock_eq_spec', 'header_length',
-        'marker_iff', 'de_ser', 'normTx_fields', 'deHeader_ser', 'deBlock_ser',
+        'hasWitness_iff', 'isNull_mirror_iff', 'marker_iff', 'de_ser', 'de_ser_mutable', 'mutableDefaultWit_fields',
+        'mutable_prefix_trunc', 'mutable_extra_data',
+        'deTx_total', 'deTxMutable_total', 'deHeader_total', 'deBlock_total', 'deserialize_total', 'normTx_fields', 'deHeader_ser', 'deBlock_ser',
         'exact_ok', 'prefix_trunc', 'extra_data', 'padding_allowed',
         'header_exact_ok', 'header_prefix_trunc', 'header_extra_data', 'header_padding_allowed',
         'block_exact_ok', 'block_prefix_trunc', 'block_extra_data', 'block_padding_allowed',
